@@ -27,8 +27,8 @@ from props.common import TRUSTED_BASE, ASSUMPTIONS
 
 ID = "C13"
 FORMAT_GROUP = "sep"
-LEAN_MODULES = ["LexVerif.Props.C13"]
-GEN = []
+LEAN_MODULES = ["LexVerif.Props.C13", "LexVerif.Props.Literals.ParseFloatParse", "LexVerif.Props.Literals.ParseFloatShared", "LexVerif.Props.Literals.ParseIntegerAlgorithm", "LexVerif.Props.Literals.UtilSkip", "LexVerif.Props.Literals.UtilNoskip", "LexVerif.Props.Literals.UtilIterator", "LexVerif.Props.Literals.UtilDigit", "LexVerif.Props.Literals.ParseFloatApi", "LexVerif.Props.Literals.ParseIntegerApi", "LexVerif.Props.Literals.ParseFloatSlow", "LexVerif.Props.Literals.ParseFloatBinary"]
+GEN = ["literals"]
 TRUSTED = TRUSTED_BASE + [
     "R1-R4 are judged on implementation results only (metamorphic; no oracle needed): props/C13.py `post`, with the "
     "position classifier `classify` written from docs/DigitSeparators.md",
